@@ -10,9 +10,15 @@ func propC06(c *Ctx, r *Report) {
 	r.Clauses = append(r.Clauses,
 		"evaluator default discipline (E2): every compile-time evaluator (a value-returning function with a switch over an operator / math-function enum or operator token whose arms compute results) declines — ok=false, nil or an error — on every operator it does not implement; it never returns or falls through to a substituted value")
 	r.NotDecided = append(r.NotDecided,
-		"that any folded value equals the run-time value (wrap-around, rounding, abstract-to-concrete conversion, operand order), that division by zero is diagnosed, sibling evaluators agreeing on implemented operators")
+		"that any folded value equals the run-time value (wrap-around, rounding, abstract-to-concrete conversion, operand order when operands are carried in containers), that division by zero is diagnosed, sibling evaluators agreeing on implemented operators")
 	c.runEvaluators(r, "eval.default", "evaluators", nil, nil)
 	r.floor("evaluators", 10)
+	r.Clauses = append(r.Clauses, "evaluator operator selection (E2): in every arm of a compile-time evaluator's switch over binary operators (ir.BinaryOperator or the parser's operator tokens) the Go expression that combines the value derived from the left operand with the value derived from the right operand uses the Go operator that has the WGSL operator's meaning, non-commutative operators keep the left operand on the left (comparisons may be mirrored), and the % arm does not round the quotient with Floor/Ceil/Round (WGSL % truncates)")
+	c.runEvalOps(r, map[string]bool{"wgsl/internal/lower": true, "ir": true, "msl/internal/codegen": true, "dxil/internal/emit": true, "hlsl/internal/codegen": true, "glsl/internal/codegen": true, "spirv/internal/codegen": true})
+	r.floor("evalsel.arms", 120)
+	r.Clauses = append(r.Clauses, "evaluator math selection (E2): in every switch over ir.MathFunction the functions of Go's math and math/bits packages referenced in the arm for a builtin are ones with that builtin's meaning (round -> math.RoundToEven, trunc -> math.Trunc, countLeadingZeros -> bits.LeadingZeros32/64, ...; reference table from the WGSL builtin definitions)")
+	c.runEvalMath(r, map[string]bool{"wgsl/internal/lower": true, "ir": true, "msl/internal/codegen": true, "dxil/internal/emit": true, "hlsl/internal/codegen": true, "glsl/internal/codegen": true, "spirv/internal/codegen": true})
+	r.floor("evalsel.matharms", 25)
 	r.Clauses = append(r.Clauses, "numeric literal conversion (E10): no strconv conversion of a WGSL numeric literal in the lowerer discards its error (a literal that is not representable must be an error, not a saturated value)")
 	c.runErrflowFiltered(r, inPkgs("wgsl/internal/lower"), nil, func(callee string) bool { return strings.HasPrefix(callee, "strconv.") }, false)
 }
